@@ -58,6 +58,8 @@ class SingleShooting(SamplingMethod):
         self.add_variables_V_control_finalize(stage, opti)
 
     def add_constraints(self,stage,opti):
+        if stage._constraints["integrator_roots"]:
+            raise Exception("Constraints with grid='integrator_roots' are only supported by DirectCollocation.")
         self.add_constraints_before(stage, opti)
         # Obtain the discretised system
         F = self.discrete_system(stage)
